@@ -332,7 +332,19 @@ class Rejected(Exception):
     pass
 
 
-def build(w, log, start=None, datasets=None, collators=None):
+def make_configs(w, log, objs, collators=None):
+    from kappadata.samplers.interleaved_sampler import InterleavedSamplerConfig
+    attr = w.get("source_attr", "data_source")
+    cfgs = []
+    for ci, c in enumerate(w["configs"]):
+        s = make_sampler(f"c{ci}", c["n"], c["m"], c["kind"], log, attr, dataset=objs[ci + 1], dist=c.get("dist"))
+        cfgs.append(InterleavedSamplerConfig(sampler=s, every_n_epochs=c["ene"], every_n_updates=c["enu"],
+                                             every_n_samples=c["ens"], batch_size=c["bs"],
+                                             collator=collators[ci + 1] if collators else None))
+    return cfgs
+
+
+def build(w, log, start=None, datasets=None, collators=None, cfg_objs=None, only_configs=False):
     from kappadata.samplers.interleaved_sampler import InterleavedSampler, InterleavedSamplerConfig
     attr = w.get("source_attr", "data_source")
     objs = list(datasets) if datasets else [_Sized(w["M"])] + [_Sized(c["m"]) for c in w["configs"]]
@@ -340,12 +352,9 @@ def build(w, log, start=None, datasets=None, collators=None):
         if c.get("share_with") is not None and c["share_with"] <= ci:
             objs[ci + 1] = objs[c["share_with"]]  # the very same dataset object, used by two samplers
     main = make_sampler("main", w["N"], w["M"], w["main_kind"], log, attr, dataset=objs[0], dist=w.get("dist"))
-    cfgs = []
-    for ci, c in enumerate(w["configs"]):
-        s = make_sampler(f"c{ci}", c["n"], c["m"], c["kind"], log, attr, dataset=objs[ci + 1], dist=c.get("dist"))
-        cfgs.append(InterleavedSamplerConfig(sampler=s, every_n_epochs=c["ene"], every_n_updates=c["enu"],
-                                             every_n_samples=c["ens"], batch_size=c["bs"],
-                                             collator=collators[ci + 1] if collators else None))
+    cfgs = cfg_objs if cfg_objs is not None else make_configs(w, log, objs, collators)
+    if only_configs:
+        return cfgs
     kw = {w["budget"][0]: w["budget"][1]}
     if start:
         kw.update(start)
@@ -356,11 +365,44 @@ def build(w, log, start=None, datasets=None, collators=None):
         raise Rejected(f"{type(e).__name__}: {e}")
 
 
-def run_sampler(w, start=None, via="sampler", cap=None, sampler=None, log=None, foreign_epoch=None):
-    """returns (history, terminated); `sampler`/`log` allow a second pass over the same object"""
+def gen_company(rng, w):
+    """a second InterleavedSampler built from the SAME config objects (a trainer that builds its eval configs once and uses them
+    for an eval-only sampler and for the training sampler): other main batch size, its own main sampler, own budget"""
+    return dict(order=rng.choice(["before", "after"]), B=rng.choice([1, 2, 3, 5, 8]), budget=rng.choice([["epochs", 0], ["epochs", 1], ["updates", 3]]),
+                consume=rng.choice(["none", "all", "interleaved", "interleaved"]), pattern=rng.getrandbits(32))
+
+
+def _build_company(w, s, comp, log):
+    from kappadata.samplers.interleaved_sampler import InterleavedSampler
+    junk = []
+    n2 = max(w["N"], comp["B"])
+    m2 = max(w["M"], n2)
+    main2 = make_sampler("main2", n2, m2, "seq", junk, w.get("source_attr", "data_source"), dataset=_Sized(m2))
+    try:
+        return InterleavedSampler(main_sampler=main2, batch_size=comp["B"], configs=s if isinstance(s, list) else s.configs,
+                                  drop_last=False, **{comp["budget"][0]: comp["budget"][1]})
+    except (AssertionError, NotImplementedError) as e:
+        raise Rejected(f"company: {type(e).__name__}: {e}")
+
+
+def run_sampler(w, start=None, via="sampler", cap=None, sampler=None, log=None, foreign_epoch=None, company=None, overlap=None):
+    """returns (history, terminated); `sampler`/`log` allow a second pass over the same object.
+    company: see gen_company - its own events never enter the history (the shared samplers' log entries made while the company
+    runs are cut out again); overlap: [(position, n)] - after `position` items of this iteration a second iterator over the same
+    object is started and advanced by n items while the first one is suspended"""
+    import random as _random
+    comp_obj = None
     if sampler is None:
         log = []
-        s = build(w, log, start)
+        if company is not None and company["order"] == "before":
+            # configs first, company second, the sampler under test last
+            cfgs = build(w, log, start, only_configs=True)
+            comp_obj = _build_company(w, cfgs, company, log)
+            s = build(w, log, start, cfg_objs=cfgs)
+        else:
+            s = build(w, log, start)
+            if company is not None:
+                comp_obj = _build_company(w, s, company, log)
         if foreign_epoch is not None and hasattr(s.main_sampler, "epoch"):
             s.main_sampler.epoch = foreign_epoch  # user code used the sampler before; nothing is announced to us
     else:
@@ -368,22 +410,59 @@ def run_sampler(w, start=None, via="sampler", cap=None, sampler=None, log=None, 
         del log[:]
     run_sampler.last = (s, log)
     cap = cap if cap is not None else 10 ** 6
+
+    def silently(fn):
+        n0 = len(log)
+        try:
+            return fn()
+        finally:
+            del log[n0:]
+
+    def items(obj):
+        return iter(obj) if via == "sampler" else iter(obj.batch_sampler)
+
+    comp_it = None
+    if comp_obj is not None:
+        if company["consume"] == "all":
+            silently(lambda: sum(1 for _ in zip(range(5000), items(comp_obj))))
+        elif company["consume"] == "interleaved":
+            comp_it = silently(lambda: items(comp_obj))
+    pat = _random.Random(company["pattern"]) if comp_it is not None else None
+    overlap = sorted(overlap or [])
+    others = []  # overlapping iterators are kept alive until the end (nobody closes them)
     n = 0
-    if via == "sampler":
-        for full, idx in s:
+    pos = 0
+    it = items(s)
+    while True:
+        if comp_it is not None and pat.random() < 0.5:
+            k = pat.randint(1, 3)
+            silently(lambda: [next(comp_it, None) for _ in range(k)])
+        while overlap and overlap[0][0] <= pos:
+            _, k = overlap.pop(0)
+            n0 = len(log)
+            o = items(s)
+            for _ in range(k):
+                if next(o, None) is None:
+                    break
+            others.append(o)
+            del log[n0:]
+        try:
+            got = next(it)
+        except StopIteration:
+            break
+        pos += 1
+        if via == "sampler":
+            full, idx = got
             log.append(["out", int(idx), bool(full)])
             n += 1
-            if n > cap:
-                return log, False
-    else:
-        for batch in s.batch_sampler:
-            for j, idx in enumerate(batch):
-                log.append(["out", int(idx), j == len(batch) - 1])
-            n += len(batch)
-            if n > cap:
-                return log, False
-            if len(batch) == 0:
+        else:
+            for j, idx in enumerate(got):
+                log.append(["out", int(idx), j == len(got) - 1])
+            n += len(got)
+            if len(got) == 0:
                 log.append(["empty-batch"])
+        if n > cap:
+            return log, False
     return log, True
 
 
